@@ -108,15 +108,16 @@ CHECKS = {
         note=NOTE_COMMON + "Partial: canonical re-encoding of decoded multi types and collections, and the real allocator's behaviour, are decided per explored input.",
     ),
     "C20": dict(
-        technique="Lean 4 theorems parametric in the distance function (index-list shape; the explicit-stack worker with fuel 2*size is proved to terminate having marked exactly the recursive split tree; threshold guarantee between consecutive retained points by induction over that tree) + bit-exact float correspondence + exact rational oracle",
+        technique="Lean 4 theorems parametric in the distance function (index-list shape; the explicit-stack worker with fuel 2*size is proved to terminate having marked exactly the recursive split tree; threshold guarantee between consecutive retained points by induction over that tree; idempotence: the scan keeps the first maximum, so the split tree of the retained points is the original tree restricted) + bit-exact float correspondence + exact rational oracle",
         text="For every distance function, comparison, threshold and size: the result is strictly increasing and in range, all points are returned below three, "
              "first and last are always kept (mask monotonicity by induction over the worker's fuel), and every split index is strictly inside its segment "
              "and carries the maximal distance found. C20_loop_is_recursion: with the fuel 2*size the stack loop works the whole line off (cost <= 2(e-s)-1) and "
              "marks exactly the recursive split tree; C20_retained_members; C20_threshold: for consecutive returned indexes i<j every omitted k between them has "
-             "not dist(i,j,k) > threshold^2, for every size, threshold^2 >= 0 and distance function whose comparison is a strict weak order. Idempotence and the "
+             "not dist(i,j,k) > threshold^2, for every size, threshold^2 >= 0 and distance function whose comparison is a strict weak order. C20_idempotent (same generality): simplifying the retained points again "
+             "(same distances, renumbered) returns all of them - scan_spec (the scan returns the first index attaining the maximum), scan_restrict, dp_restrict. The "
              "exact-distance reading of the float run are evaluated per run in exact rational arithmetic against Go's output, with the Lean Float mirror "
              "reproducing Go's indexes bit for bit.",
-        note=NOTE_COMMON + "Partial: idempotence is oracle-checked, not proved; the threshold theorem is about the distance values the code computes (float distances in the run), "
+        note=NOTE_COMMON + "Partial: the threshold and idempotence theorems are about the distance values the code computes (float distances in the run), "
              "their agreement with exact distances is judged by the rational oracle with a 1e-9 relative slack.",
     ),
     "C10": dict(
